@@ -202,6 +202,41 @@ variable [LinearOrder χ]
 def xle (tr : Array (Item χ κ)) (a b : Nat) : Prop :=
   ∀ xa xb, xOf tr a = some xa → xOf tr b = some xb → xa ≤ xb
 
+omit [LinearOrder χ] in
+/-- the link part of the representation invariant: `t` enumerates every id once, starts at
+`first`, and the `left`/`right` pointers are exactly the neighbours in `t` -/
+structure RepL (tr : Array (Item χ κ)) (first : Option Nat) (t : List Nat) : Prop where
+  first_eq : first = t.head?
+  ne_nil : t ≠ []
+  perm : t.Perm (List.range tr.size)
+  seg : Seg tr none t none
+
+omit [LinearOrder χ] in
+theorem RepL.length_eq {tr : Array (Item χ κ)} {first : Option Nat} {t : List Nat}
+    (h : RepL tr first t) : t.length = tr.size := by
+  rw [h.perm.length_eq, List.length_range]
+
+omit [LinearOrder χ] in
+theorem RepL.nodup {tr : Array (Item χ κ)} {first : Option Nat} {t : List Nat}
+    (h : RepL tr first t) : t.Nodup := h.perm.nodup_iff.2 List.nodup_range
+
+omit [LinearOrder χ] in
+theorem RepL.mem_iff {tr : Array (Item χ κ)} {first : Option Nat} {t : List Nat}
+    (h : RepL tr first t) {a : Nat} : a ∈ t ↔ a < tr.size := by
+  rw [h.perm.mem_iff, List.mem_range]
+
+omit [LinearOrder χ] in
+theorem RepL.walk_eq {tr : Array (Item χ κ)} {first : Option Nat} {t : List Nat}
+    (h : RepL tr first t) : walkA tr tr.size first = t := by
+  have := walkA_seg h.seg 0
+  rw [walkA_none, List.append_nil, Nat.add_zero, h.length_eq, headOr_none, ← h.first_eq] at this
+  exact this
+
+omit [LinearOrder χ] in
+theorem RepL.traversal_eq {s : State χ κ} {t : List Nat} (h : RepL s.trials s.first t) :
+    traversal s = t := by
+  rw [traversal_eq_walkA]; exact h.walk_eq
+
 /-- `t` is the linked list stored in `(tr, first)` -/
 structure Rep (tr : Array (Item χ κ)) (first : Option Nat) (t : List Nat) : Prop where
   first_eq : first = t.head?
@@ -209,6 +244,25 @@ structure Rep (tr : Array (Item χ κ)) (first : Option Nat) (t : List Nat) : Pr
   perm : t.Perm (List.range tr.size)
   seg : Seg tr none t none
   sorted : t.Pairwise (xle tr)
+
+theorem Rep.repL {tr : Array (Item χ κ)} {first : Option Nat} {t : List Nat}
+    (h : Rep tr first t) : RepL tr first t := ⟨h.first_eq, h.ne_nil, h.perm, h.seg⟩
+
+omit [LinearOrder χ] in
+theorem RepL.split_facts {tr : Array (Item χ κ)} {first : Option Nat} {pre' post : List Nat}
+    {l r : Nat} (h : RepL tr first (pre' ++ l :: r :: post)) :
+    l < tr.size ∧ r < tr.size ∧ l ≠ r := by
+  refine ⟨h.mem_iff.1 (by simp), h.mem_iff.1 (by simp), ?_⟩
+  have hnd := h.nodup
+  rw [List.nodup_append] at hnd
+  have h2 := hnd.2.1
+  rw [List.nodup_cons] at h2
+  intro e
+  exact h2.1 (by rw [e]; simp)
+
+theorem Rep.split_facts {tr : Array (Item χ κ)} {first : Option Nat} {pre' post : List Nat}
+    {l r : Nat} (h : Rep tr first (pre' ++ l :: r :: post)) :
+    l < tr.size ∧ r < tr.size ∧ l ≠ r := h.repL.split_facts
 
 theorem Rep.length_eq {tr : Array (Item χ κ)} {first : Option Nat} {t : List Nat}
     (h : Rep tr first t) : t.length = tr.size := by
@@ -336,13 +390,13 @@ theorem insTrials_linkOf (tr : Array (Item χ κ)) (new : Item χ κ) (l r i : N
         cases tr[i]? <;> rfl
       · simp [h1, h2, h3]
 
-/-- The list transformation of an insertion: the new id goes between `l` and `r`. -/
-theorem Rep_insTrials {tr : Array (Item χ κ)} {first : Option Nat} {pre' post : List Nat}
+omit [LinearOrder χ] in
+/-- The list transformation of an insertion (links only; no order assumption): the new id goes
+between `l` and `r`. -/
+theorem RepL_insTrials {tr : Array (Item χ κ)} {first : Option Nat} {pre' post : List Nat}
     {l r : Nat} (new : Item χ κ)
-    (h : Rep tr first (pre' ++ l :: r :: post))
-    (hA : ∀ a ∈ pre' ++ [l], ∀ xa, xOf tr a = some xa → xa ≤ new.x)
-    (hB : ∀ b ∈ r :: post, ∀ xb, xOf tr b = some xb → new.x ≤ xb) :
-    Rep (insTrials tr new l r) first (pre' ++ l :: tr.size :: r :: post) := by
+    (h : RepL tr first (pre' ++ l :: r :: post)) :
+    RepL (insTrials tr new l r) first (pre' ++ l :: tr.size :: r :: post) := by
   have hnd := h.nodup
   have hmem : ∀ a ∈ pre' ++ l :: r :: post, a < tr.size := fun a ha => h.mem_iff.1 ha
   have hl : l < tr.size := hmem l (by simp)
@@ -356,8 +410,7 @@ theorem Rep_insTrials {tr : Array (Item χ κ)} {first : Option Nat} {pre' post 
   have hlpre : l ∉ pre' := fun e => hnd3 l e l (by simp) rfl
   have hrpre : r ∉ pre' := fun e => hnd3 r e r (by simp) rfl
   have hLink := insTrials_linkOf tr new l r
-  have hX := insTrials_xOf tr new l r
-  refine ⟨?_, by simp, ?_, ?_, ?_⟩
+  refine ⟨?_, by simp, ?_, ?_⟩
   · rw [h.first_eq]; cases pre' <;> rfl
   · rw [insTrials_size, List.range_succ]
     have h1 : (pre' ++ l :: tr.size :: r :: post).Perm (tr.size :: (pre' ++ l :: r :: post)) := by
@@ -391,6 +444,19 @@ theorem Rep_insTrials {tr : Array (Item χ κ)} {first : Option Nat} {pre' post 
         have h1 : a ≠ l := fun e => hlpost (e ▸ ha)
         have h2 : a ≠ r := fun e => hr2 (e ▸ ha)
         rw [hLink a hl hr hlr, if_neg (by omega), if_neg h1, if_neg h2]
+
+/-- The list transformation of an insertion: the new id goes between `l` and `r`. -/
+theorem Rep_insTrials {tr : Array (Item χ κ)} {first : Option Nat} {pre' post : List Nat}
+    {l r : Nat} (new : Item χ κ)
+    (h : Rep tr first (pre' ++ l :: r :: post))
+    (hA : ∀ a ∈ pre' ++ [l], ∀ xa, xOf tr a = some xa → xa ≤ new.x)
+    (hB : ∀ b ∈ r :: post, ∀ xb, xOf tr b = some xb → new.x ≤ xb) :
+    Rep (insTrials tr new l r) first (pre' ++ l :: tr.size :: r :: post) := by
+  have hL := RepL_insTrials new h.repL
+  have hmem : ∀ a ∈ pre' ++ l :: r :: post, a < tr.size := fun a ha => h.mem_iff.1 ha
+  obtain ⟨hl, hr, hlr⟩ := h.split_facts
+  have hX := insTrials_xOf tr new l r
+  refine ⟨hL.first_eq, hL.ne_nil, hL.perm, hL.seg, ?_⟩
   · -- sortedness
     have hold : ∀ a, a < tr.size → xOf (insTrials tr new l r) a = xOf tr a := by
       intro a ha; rw [hX a hl hr hlr, if_neg (by omega)]
@@ -441,17 +507,6 @@ theorem insert_eq [LinearOrder κ] (s : State χ κ) (new : Item χ κ) (hint : 
     cases s.dual <;> rfl
   · simp only [insert, hf, hrit, hl]
     cases s.dual <;> rfl
-
-theorem Rep.split_facts {tr : Array (Item χ κ)} {first : Option Nat} {pre' post : List Nat}
-    {l r : Nat} (h : Rep tr first (pre' ++ l :: r :: post)) :
-    l < tr.size ∧ r < tr.size ∧ l ≠ r := by
-  refine ⟨h.mem_iff.1 (by simp), h.mem_iff.1 (by simp), ?_⟩
-  have hnd := h.nodup
-  rw [List.nodup_append] at hnd
-  have h2 := hnd.2.1
-  rw [List.nodup_cons] at h2
-  intro e
-  exact h2.1 (by rw [e]; simp)
 
 section insq
 variable [LinearOrder κ]
@@ -612,6 +667,37 @@ theorem insert_rep [LinearOrder κ] {s : State χ κ} {t : List Nat} (h : Rep s.
     have hs2 := hs.2.1
     rw [List.pairwise_cons, List.pairwise_cons] at hs2
     exact le_trans (le_of_lt hxlt) (hs2.2.1 b hb xr xb hxr hxb)
+
+/-! ### arbitrary hints -/
+
+/-- An ARBITRARY hint `r` that is a non-first item of the list is trusted: `insert` succeeds and
+splices the new id immediately before `r`; the links stay consistent (the order may be lost). -/
+theorem insert_hint_links [LinearOrder κ] {s : State χ κ} {A B : List Nat} {l r : Nat}
+    (h : RepL s.trials s.first (A ++ l :: r :: B)) (new : Item χ κ) :
+    ∃ s', insert ltB leB s new (some r) = .ok s' ∧ s'.first = s.first ∧
+      s'.trials = insTrials s.trials new l r ∧
+      RepL s'.trials s'.first (A ++ l :: s.trials.size :: r :: B) := by
+  have hseg := h.seg
+  rw [Seg_append, Seg_cons, Seg_cons] at hseg
+  obtain ⟨-, -, hlr, -⟩ := hseg
+  obtain ⟨rit, hrit, hleft, -⟩ := linkOf_eq_some.1 hlr
+  have hins := insert_eq (κ := κ) s new (some r) r l rit (Or.inl rfl) hrit hleft
+  exact ⟨_, hins, rfl, rfl, RepL_insTrials new h⟩
+
+/-- hinting the FIRST item raises (`newDataItem.GetLeft()` is `None`) -/
+theorem insert_hint_first_err [LinearOrder κ] {s : State χ κ} {B : List Nat} {r : Nat}
+    (h : RepL s.trials s.first (r :: B)) (new : Item χ κ) :
+    insert ltB leB s new (some r) = .error .attributeError := by
+  have hseg := h.seg
+  rw [Seg_cons] at hseg
+  obtain ⟨rit, hrit, hleft, -⟩ := linkOf_eq_some.1 hseg.1
+  simp [insert, hrit, hleft]
+
+/-- a hint that is not a stored id raises -/
+theorem insert_hint_oob_err [LinearOrder κ] {s : State χ κ} {r : Nat} (hr : s.trials.size ≤ r)
+    (new : Item χ κ) : insert ltB leB s new (some r) = .error .attributeError := by
+  have : s.trials[r]? = none := Array.getElem?_eq_none hr
+  simp [insert, this]
 
 /-! ## operations that do not touch the links -/
 
